@@ -314,6 +314,33 @@ def gen_dataset(rng, cfg):
         quads.append([rng.choice(SUBJ), 10, 26, rng.choice(pop)])  # empty list as object
     if pop and rng.random() < 0.08:
         quads.append([34, 35, rng.choice([24, 34]), rng.choice(pop)])   # predicate local name ends in "."
+    if pop and rng.random() < 0.3:
+        # a cycle and a diamond along e:p (nodes reached twice: transitive walks, paths)
+        g = rng.choice(pop)
+        for t in ([1, 10, 2], [2, 10, 3], [3, 10, 1], [1, 10, 3], [3, 10, 28]):
+            if t + [g] not in quads and rng.random() < 0.85:
+                quads.append(t + [g])
+    if pop and rng.random() < 0.3:
+        # a GROUND dataset (no blank nodes: isomorphism is equality, the compare functions' answers are determined) …
+        sub = {4: 1, 5: 2, 6: 3, 7: 1, 8: 2, 9: 3}
+        ground = []
+        for q in quads:
+            q2 = [sub.get(q[0], q[0]), q[1], sub.get(q[2], q[2]), q[3]]
+            if q2 not in ground:
+                ground.append(q2)
+        quads = ground
+        named = [g for g in pop if g != 0]
+        if len(pop) >= 2 and rng.random() < 0.6:
+            # … with a graph that is another one's copy, or its copy with one object changed (same size, not isomorphic)
+            a, b = rng.sample(pop, 2)
+            quads = [q for q in quads if q[3] != b]
+            src = [q for q in quads if q[3] == a]
+            for i, q in enumerate(src):
+                o = q[2]
+                if i == 0 and rng.random() < 0.6:
+                    o = 28 if o != 28 else 1
+                if [q[0], q[1], o, b] not in quads:
+                    quads.append([q[0], q[1], o, b])
     return quads, sorted(set(empty))
 
 
@@ -370,7 +397,16 @@ def gen_read(rng, cfg, quads, kind=None):
     if kind == "cmp":
         f = rng.choice(["isomorphic", "to_isomorphic", "to_canonical_graph", "graph_diff", "similar", "g_isomorphic",
                         "internal_hash", "setop+", "setop-", "setop*", "setop^", "skolemize", "eq"])
-        return ["cmp", f, rng.choice([-1, 0, 1, 3, gsel()]), rng.choice([-1, 0, 2, 3, gsel()])]
+        present = sorted({q[3] for q in quads}) or [0]
+        pa = rng.choice(present) if rng.random() < 0.5 else rng.choice([-1, 0, 1, 3, gsel()])
+        pb = rng.choice(present) if rng.random() < 0.5 else rng.choice([-1, 0, 2, 3, gsel()])
+        sizes = {}
+        for q in quads:
+            sizes[q[3]] = sizes.get(q[3], 0) + 1
+        twins = [(a, b) for a in sizes for b in sizes if a != b and sizes[a] == sizes[b]]
+        if twins and rng.random() < 0.6:     # two graphs of the same size: the interesting operands for isomorphic / graph_diff
+            pa, pb = rng.choice(twins)
+        return ["cmp", f, pa, pb]
     if kind == "basic":
         f = rng.choice(["len", "iter", "contains3", "triples", "slice", "getitem", "subjects", "predicates", "objects",
                         "subject_objects", "subject_predicates", "predicate_objects", "triples_choices", "bool", "str",
@@ -386,6 +422,8 @@ def gen_read(rng, cfg, quads, kind=None):
                         "transitiveClosure", "seq", "isomorphic_copy", "absolutize"])
         q = some()
         head = rng.choice([7, 8, q[0], q[2] if q[2] in SUBJ else 7, 26])
+        if f.startswith("transitive") and rng.random() < 0.5:
+            q = [rng.choice([1, 2, 3]), 10, rng.choice([1, 2, 3, 28]), 0]     # along the e:p cycle / diamond, if there
         return ["nav", f, q[0], q[1], q[2], head]
     # context-aware reads (Dataset / ConjunctiveGraph only)
     f = rng.choice(["graphs", "contexts", "graphs_t", "quads", "contains4", "triples_ctx", "triples4", "get_context",
@@ -823,6 +861,7 @@ _SIDE_VIOL = []
 #   "T s,p,o …" triples (bag) | "Q s,p,o,g …" quads (bag) | "QS …" quads (set) | "N g …" graph names | "b 0|1" | "n k"
 #   | "R a,b,c …" rows (bag) | "E" the read raised
 _OUT = [None]
+_SKIPPED = []
 
 
 def _tid(t):
@@ -891,6 +930,64 @@ def _line_tokens(case, lines, quads):
             toks.append("d" if g_ is None else g2tok.get(g_, "?" + g_))
         out.append(",".join(toks))
     return out
+
+
+def _hext_tokens(case, lines):
+    """hextuple lines (JSON arrays) -> quad tokens, by the text of the terms (json module only)"""
+    obj = {}
+    for tid, t in TERM.items():
+        if isinstance(t, URIRef):
+            obj[(str(t), "globalId", "")] = str(tid)
+        elif isinstance(t, BNode):
+            obj[(t.n3(), "localId", "")] = str(tid)
+        else:
+            dt = str(t.datatype) if t.datatype is not None else (
+                "http://www.w3.org/1999/02/22-rdf-syntax-ns#langString" if t.language else "http://www.w3.org/2001/XMLSchema#string")
+            obj[(str(t), dt, t.language or "")] = str(tid)
+    node = {}
+    for tid, t in TERM.items():
+        if isinstance(t, URIRef):
+            node[str(t)] = str(tid)
+        elif isinstance(t, BNode):
+            node[t.n3()] = str(tid)
+    g2tok = {"": "d"}
+    for g, tok in GTOK.items():
+        ident = _gid(case["cfg"], g)
+        g2tok.setdefault(ident.n3() if isinstance(ident, BNode) else str(ident), tok)
+    out = []
+    for ln in lines:
+        try:
+            s_, p_, v, dt, lang, g_ = _json.loads(ln)
+        except ValueError:
+            out.append("?" + ln)
+            continue
+        out.append(",".join([node.get(s_, "?" + s_), node.get(p_, "?" + p_), obj.get((v, dt, lang), "?" + repr((v, dt, lang))),
+                             g2tok.get(g_, "?" + g_)]))
+    return out
+
+
+def _is_ground(case, g):
+    """graph g of the case holds no blank node (isomorphism = equality of the triple sets)"""
+    gs = None if case["cfg"] == "g" else g
+    return all(t not in (4, 5, 6, 7, 8, 9) for q in case["quads"] if gs is None or q[3] == gs for t in q[:3])
+
+
+def _trig_graph_counts(case, text):
+    """TriG text -> "<graph>:<number of triples>" per graph block (blank-node-named graphs pooled as `b`); None if
+    the text cannot be read back"""
+    d = Dataset()
+    d.parse(data=text, format="trig")
+    counts = {}
+    for c in d.contexts():
+        n = len(c)
+        if n == 0:
+            continue
+        ident = c.identifier
+        tok = "b" if isinstance(ident, BNode) and ident != _gid(case["cfg"], 0) else _gtok_of(case, ident)
+        if ident == DATASET_DEFAULT_GRAPH_ID:
+            tok = "d"
+        counts[tok] = counts.get(tok, 0) + n
+    return [f"{k}:{v}" for k, v in counts.items()]
 
 
 # the query shapes whose answer the model computes exactly (driver bodies spo / s / gspo)
@@ -1052,7 +1149,24 @@ def do_read(case, top, target, rd):
                 _out("T", _line_tokens(case, lines, False))
             elif fmt == "nquads":
                 _out("QS", _line_tokens(case, lines, True), as_set=True)
+            elif fmt == "hext" and isinstance(target, ConjunctiveGraph):
+                _out("Q", _hext_tokens(case, lines))            # a BAG: a registered non-empty default graph is written twice
             return lines
+        if fmt == "trig" and isinstance(target, ConjunctiveGraph):
+            try:
+                _out("GC", _trig_graph_counts(case, out))
+            except core.CaseTimeout:
+                raise
+            except Exception:
+                # the text cannot be read back (a round-trip matter, not C13's): the comparison is SKIPPED for this read —
+                # the line is filled in from the case itself and counted
+                counts = {}
+                for q in case["quads"]:
+                    tok = "b" if q[3] in (3, 4) else GTOK[q[3]]
+                    counts[tok] = counts.get(tok, 0) + 1
+                _out("GC", [f"{k}:{v}" for k, v in counts.items()])
+                _SKIPPED.append("trig")
+            return Text(fmt, out, True)
         return Text(fmt, out, fmt in QUAD_FORMATS and isinstance(target, ConjunctiveGraph))
     if api == "q":
         text, flags = rd[1], rd[2]
@@ -1137,20 +1251,28 @@ def do_read(case, top, target, rd):
         _, f, a, b = rd
         ga, gb = _graph_arg(case, top, target, a), _graph_arg(case, top, target, b)
         if f == "isomorphic":
-            return [rcompare.isomorphic(ga, gb)]
+            ans = rcompare.isomorphic(ga, gb)
+            _out("b", ["1" if ans else "0"])
+            return [ans]
         if f == "to_isomorphic":
             r = rcompare.to_isomorphic(ga)
             return _bag(set(r)) + [r == rcompare.to_isomorphic(gb)]
         if f == "internal_hash":
             return [str(rcompare.to_isomorphic(ga).internal_hash())]
         if f == "to_canonical_graph":
-            return _bag(set(rcompare.to_canonical_graph(ga)))
+            cg_ = set(rcompare.to_canonical_graph(ga))
+            _out("T", [_ttok(t) for t in cg_])
+            return _bag(cg_)
         if f == "graph_diff":
-            return [_bag(set(x)) for x in rcompare.graph_diff(ga, gb)]
+            parts = [set(x) for x in rcompare.graph_diff(ga, gb)]
+            _out("QS", [_ttok(t) + ",i%d" % i for i, part in enumerate(parts) for t in part], as_set=True)
+            return [_bag(x) for x in parts]
         if f == "similar":
             return [rcompare.similar(ga, gb)]
         if f == "g_isomorphic":
-            return [ga.isomorphic(gb)]
+            ans = ga.isomorphic(gb)
+            _out("b", ["1" if ans else "0"])
+            return [ans]
         if f == "eq":
             return [ga == gb, hash(ga) == hash(gb), ga < gb if a != b else False]
         if f == "skolemize":
@@ -1240,9 +1362,13 @@ def do_read(case, top, target, rd):
                     _bag(x.identifier for x in r.subjects(_t(p))), [_k(getattr(x, "identifier", x)) for x in r.items()],
                     _bag(getattr(x, "identifier", x) for x in r[_t(p)])]
         if f == "transitive_objects":
-            return _bag(target.transitive_objects(_t(s), _t(p)))
+            items = list(target.transitive_objects(_t(s), _t(p)))
+            _out("R", [_tid(x) for x in items])
+            return _bag(items)
         if f == "transitive_subjects":
-            return _bag(target.transitive_subjects(_t(p), _t(o)))
+            items = list(target.transitive_subjects(_t(p), _t(o)))
+            _out("R", [_tid(x) for x in items])
+            return _bag(items)
         if f == "transitiveClosure":
             return _bag(target.transitiveClosure(lambda n, g: g.objects(n, _t(p)), TERM[s]))
         if f == "seq":
@@ -1650,6 +1776,8 @@ def _run_impl(case, refs=None):
         if out_comparable(case, rd):        # the model computes this answer: compare the skeleton output
             obs.append("out " + (_OUT[0] if _OUT[0] is not None else "none"))
             bump("outcmp:" + name)
+            while _SKIPPED:
+                bump("outcmp_skipped_unreadable:" + _SKIPPED.pop())
         else:
             obs.append("out -")
         now = check_state(k, rd, "first call")
@@ -1772,7 +1900,9 @@ def _model_ser(rd, multi):
         return f"read trig {base}"
     if fmt == "patch":
         return "read patchtarget" if opt.get("_target") else "read patch"
-    return "read ctxs"               # nquads, trix, hext
+    if fmt == "hext":
+        return "read hext"
+    return "read ctxs"               # nquads, trix
 
 
 def _pat(*ids):
@@ -1787,9 +1917,16 @@ def out_comparable(case, rd):
     if api == "basic":
         return rd[1] in ("len", "iter", "contains3", "triples")
     if api == "nav":
-        return rd[1] == "cbd"
+        return rd[1] in ("cbd", "transitive_objects", "transitive_subjects")
+    if api == "cmp" and cfg != "view":
+        # compare functions on GROUND graphs (views handed over by identifier >= 0): isomorphic = same set of triples
+        if rd[1] in ("isomorphic", "g_isomorphic", "graph_diff"):
+            return rd[2] >= 0 and rd[3] >= 0 and _is_ground(case, rd[2]) and _is_ground(case, rd[3])
+        if rd[1] == "to_canonical_graph":
+            return rd[2] >= 0 and _is_ground(case, rd[2])
+        return False
     if api == "ser":
-        return rd[1] in ("nt", "nt11") or (multi and rd[1] == "nquads")
+        return rd[1] in ("nt", "nt11") or (multi and rd[1] in ("nquads", "hext", "trig"))
     if api == "ctx" and multi:
         return rd[1] in ("graphs", "contexts", "contains4", "quads", "triples4", "triples_ctx",
                          "agg_len", "agg_contains", "agg_triples", "agg_quads")
@@ -1831,6 +1968,14 @@ def model_read(case, rd):
         return f"read {rd[1]} {_pat(rd[2], rd[3], rd[4])}"
     if api == "nav" and rd[1] == "cbd":
         return f"read cbd {rd[2]}"
+    if api == "nav" and rd[1] == "transitive_objects":
+        return f"read trans {rd[2]} {rd[3]} 1"
+    if api == "nav" and rd[1] == "transitive_subjects":
+        return f"read trans {rd[4]} {rd[3]} 0"
+    if api == "cmp" and out_comparable(case, rd):
+        ga, gb = ("d", "d") if cfg == "g" else (GTOK[rd[2]], GTOK[rd[3]] if rd[3] >= 0 else "d")
+        return {"isomorphic": f"read iso {ga} {gb}", "g_isomorphic": f"read iso {ga} {gb}",
+                "graph_diff": f"read diff {ga} {gb}", "to_canonical_graph": f"read canon {ga}"}[rd[1]]
     if not multi:
         return "read pure"            # a plain Graph / a Graph view: iteration only
     if api == "q":
@@ -1897,7 +2042,7 @@ def _model_plan(case):
         first = True
         for _ in range(reps):
             for j, ln in enumerate(ls):
-                plan.append((ln, ("out" if out_comparable(case, rd) else "skip") if first and j == 0 else None))
+                plan.append((ln, ("out" if out_comparable(case, rd) else "skip") if first and j == 0 else None, rd))
                 first = False
         plan.append(("obs", "obs"))
     if not case["twice"] and case["reads"]:
@@ -1908,7 +2053,7 @@ def _model_plan(case):
 
 
 def model_lines(case):
-    return [ln for ln, _tag in _model_plan(case)]
+    return [e[0] for e in _model_plan(case)]
 
 
 def _canon_model_line(line):
@@ -1916,10 +2061,24 @@ def _canon_model_line(line):
     return " | ".join(" ".join(sorted(p.split())) for p in parts)
 
 
-def _canon_model_out(line):
+def _canon_model_out(line, rd=None):
     """the driver's rendering of `Out` -> the canonical form `_out` produces on the implementation side"""
     kind, _, rest = line.partition(" ")
     toks = rest.split()
+    if kind == "B" and rd and rd[0] == "ser" and rd[1] == "trig":     # blocks -> triples per graph (bnode names pooled)
+        counts = {}
+        for b in toks:
+            g, _, ts = b.partition(":")
+            n = len([t for t in ts.split(";") if t])
+            if n:
+                g = "b" if g.startswith("b") else g
+                counts[g] = counts.get(g, 0) + n
+        return ("GC " + " ".join(sorted(f"{k}:{v}" for k, v in counts.items()))).strip()
+    if kind == "B" and rd and rd[0] == "ser" and rd[1] == "hext":     # blocks -> the BAG of quads
+        qs = [t + "," + b.partition(":")[0] for b in toks for t in b.partition(":")[2].split(";") if t]
+        return ("Q " + " ".join(sorted(qs))).strip()
+    if kind == "R" and rd and rd[0] == "nav":                          # one row = the nodes of the walk, as a bag
+        return ("R " + " ".join(sorted(x for t in toks for x in t.split(",")))).strip()
     if kind == "B":            # blocks g:t;t … -> the set of quads
         qs = set()
         for b in toks:
@@ -1935,11 +2094,12 @@ def _canon_model_out(line):
 
 def select_model_obs(case, out):
     res = []
-    for (_ln, tag), o in zip(_model_plan(case), out):
+    for e, o in zip(_model_plan(case), out):
+        tag = e[1]
         if tag == "obs":
             res.append(_canon_model_line(o))
         elif tag == "out":
-            res.append("out " + _canon_model_out(o))
+            res.append("out " + _canon_model_out(o, e[2] if len(e) > 2 else None))
         elif tag == "skip":
             res.append("out -")
     return res
